@@ -212,6 +212,10 @@ def _check_system(case, ctx):
         if not ok:
             return
         RF, ham2 = r2
+        evs = numpy.linalg.eigvalsh(gens.site_hamiltonian_int(case["spec"]))
+        if len(evs) > 1 and float(numpy.min(numpy.diff(evs))) <= 1e-9:
+            ctx.label("secular:degenerate-spectrum-not-compared")
+            return
         with qr.eigenbasis_of(ham):
             S = numpy.array(RT.data)
         with qr.eigenbasis_of(ham2):
@@ -337,8 +341,12 @@ def _check_lind(case, ctx):
                 keep[a, b, a, b] = True
         sc = max(1e-12, float(numpy.max(numpy.abs(F))))
         # degenerate eigenvalues make the eigenbasis (hence the secular tensor) non-unique between two constructions
+        # (also between two visits of the eigenbasis of one Hamiltonian object: the round trip through the site basis
+        # leaves rounding noise that decides the basis inside a degenerate subspace)
         ev = numpy.linalg.eigvalsh(H)
         if numpy.min(numpy.diff(ev)) > 1e-6:
             ctx.bound("secular/kept-elements-unchanged", float(numpy.max(numpy.abs((S - F)[keep]))), 1e-9 * sc + 1e-13,
                       where=tag)
-        ctx.bound("secular/other-elements-zero", float(numpy.max(numpy.abs(S[~keep]))), 1e-9 * sc + 1e-13, where=tag)
+            ctx.bound("secular/other-elements-zero", float(numpy.max(numpy.abs(S[~keep]))), 1e-9 * sc + 1e-13, where=tag)
+        else:
+            ctx.label("secular:degenerate-spectrum-not-compared")
